@@ -542,6 +542,48 @@ def run_varsparse(case):
             "counters": counters, "nontrivial": nontrivial}
 
 
+def tie_equal(glyphs, name, a, b):
+    """Two contour multisets that differ only in coordinates whose exact value (exact-rational
+    resolution of the source) lies on a rounding boundary: |difference| = 1 and the pair is
+    {floor, ceil} of such a value."""
+    from fractions import Fraction
+    import math
+    ties = set()
+    for pts, _flip in R.resolve(glyphs, name):
+        for p in pts:
+            for v in p[:2]:
+                v = Fraction(v)
+                if abs((v - math.floor(v)) - Fraction(1, 2)) < Fraction(1, 10 ** 6):
+                    ties.add((math.floor(v), math.floor(v) + 1))
+    if not ties or len(a) != len(b):
+        return False
+
+    def flat(c):
+        out = []
+        for seg in c:
+            for part in seg:
+                if isinstance(part, str):
+                    out.append(part)
+                else:
+                    out.extend(part)
+        return out
+    fa, fb = [flat(c) for c in a], [flat(c) for c in b]
+    used = [False] * len(fb)
+    for x in fa:
+        ok = False
+        for j, y in enumerate(fb):
+            if used[j] or len(x) != len(y):
+                continue
+            if all(u == v or (not isinstance(u, str) and not isinstance(v, str)
+                              and (min(u, v), max(u, v)) in ties) for u, v in zip(x, y)):
+                used[j] = True
+                ok = True
+                break
+        if not ok:
+            return False
+    return True
+
+
 def closure_refs(glyphs, name, seen=None):
     seen = seen if seen is not None else set()
     for c in glyphs[name].get("components", []):
@@ -623,14 +665,23 @@ def run(case):
                 violations.append({"mech": "advance_changed", "detail": {
                     "glyph": n, "plain": t0["hmtx"][n][0], "skip": t1["hmtx"][n][0]}})
             if "glyf" in t0:
-                mirrored = any(flip for _pts, flip in R.resolve(glyphs, n))
+                # any mirroring reference at any depth (two mirrors that cancel for the exact
+                # outline do not cancel in TrueType: a reference that is inlined is reversed, one
+                # that stays a composite - or is decomposed by the glyf builder - is not)
+                mirrored = any(c["t"][0] * c["t"][3] - c["t"][1] * c["t"][2] < 0
+                               for m_ in [n] + sorted(refs[n]) if m_ in glyphs
+                               for c in glyphs[m_]["components"])
                 why = match_tt(tt_render(t0, n), tt_render(t1, n), any_direction=mirrored)
                 if why:
                     violations.append({"mech": "ttf_rendering_changed", "detail": {
                         "glyph": n, "font": fi, "why": why}})
             else:
                 a, b = otf_render(t0, n), otf_render(t1, n)
-                if a != b:
+                if a != b and case["stratum"] != "static" and tie_equal(glyphs, n, a, b):
+                    # (interpolatable paths compute the same outline through different float
+                    # operations: an exact x.5 may round either way)
+                    bump("otf_equal_up_to_half_ties")
+                elif a != b:
                     violations.append({"mech": "otf_contours_changed", "detail": {
                         "glyph": n, "font": fi, "plain": str(a)[:700], "skip": str(b)[:700]}})
         # ---------------- layout
